@@ -93,6 +93,13 @@ def run(pid, tier, ev=None, vd=None, finish=True):
         # answers, the compare-and-swap of the OTHER clients must stay linearizable (schedule as in lock_identity)
         jobs.append({"prog": "lockfile", "program": {1: [("put", ".copia/commit.lock", "c0", "c2")], 2: [("put", "f", "c1", "c2")], 3: [("put", "f", "c1", "c3")]},
                      "init": {"f": "c1", ".copia/commit.lock": "c0"}, "track_lock": True, "policy": "lock_identity", "src": "corpus"})
+        # two accepted spellings of one file (the guard lets "./f", "d//k", "d/./k" through): they are ONE file to the CAS
+        alias = {"alias_putput": {1: [("put", "f", "c1", "c2")], 2: [("put", "./f", "c1", "c3")]},
+                 "alias_nested": {1: [("put", "d/k", "c1", "c2"), ("get", "d//k")], 2: [("put", "d/./k", "c1", "c3")], 3: [("delete", "./d/k", "c2")]}}
+        for prog, program in alias.items():
+            for k in range(10 if tier == "quick" else 300):
+                jobs.append({"prog": prog, "program": program, "init": {"f": "c1", "d/k": "c1"}, "policy": "lock_stress" if k % 2 else "random",
+                             "seed": vlib.seed() * 97 + k, "src": "search"})
         # the lock itself as the suspect: every multi-commit program under the lock-stress policy
         for prog, program in [("casrace3", hr.CASRACE3), ("three", hr.EXTRA["three"]), ("deldel", hr.EXTRA["deldel"]), ("putput", hr.PROGRAMS["putput"]),
                               ("create", hr.PROGRAMS["create"]), ("putdel", hr.PROGRAMS["putdel"])]:
